@@ -522,6 +522,40 @@ theorem take_drop_hdr (x0 x1 x2 x3 x4 x5 x6 x7 x8 : UInt8) (t : Bytes) (n : Nat)
       x5 :: x6 :: x7 :: x8 :: t.take n := by
   simp [List.take, List.drop]
 
+/-- The record layer in front of the parser: if the first record holds a complete message that `frame` takes apart
+into parts a standard server (with whatever session-id bound `m`) reads `name` from, and the session id is one
+fabio admits, then the start of `ServeTCP` arrives at `name`. -/
+theorem sniRoute_of_message (m : Nat) (s msg name : Bytes) (rh : RawHello)
+    (hm : firstMessage maxRecordLen s = some msg) (hf : frame msg = some rh) (h : stdName m rh = some name)
+    (hsid : rh.sessionId.length ≤ 32) : sniRoute s = .ok name := by
+  match s, hm with
+  | ty :: v1 :: v2 :: r1 :: r0 :: mt :: a :: b :: c :: t, hm =>
+    unfold firstMessage at hm
+    simp only [← be16_eq, ← be24_eq, maxRecordLen] at hm
+    split at hm
+    · cases hm
+    rename_i hc
+    simp only [Option.some.injEq] at hm
+    subst hm
+    simp only [not_or] at hc
+    obtain ⟨c1, c2, c3, c4, c5, c6⟩ := hc
+    have hty : ty = 0x16 := Classical.not_not.mp c1
+    have hmt : mt = 0x01 := Classical.not_not.mp c5
+    have hnum : 0 < be16 r1 r0 ∧ be16 r1 r0 ≤ 16384 ∧ be16 r1 r0 ≤ t.length + 4 ∧ be24 a b c + 4 ≤ be16 r1 r0 :=
+      ⟨by omega, by omega, by omega, by omega⟩
+    have h42 := frame_some_length _ _ hf
+    simp only [List.length_cons, List.length_take] at h42
+    have hu := std_agree_of_sid _ _ _ rh hf h hsid
+    unfold sniRoute
+    simp only [peekLen, recHdrLen]
+    rw [if_neg (by simp only [List.length_cons]; omega), sliceTo_ok (by simp only [List.length_cons]; omega),
+      ok_bind, take_nine,
+      bufsize_nine _ _ _ _ _ _ _ _ _ hty hmt ⟨hnum.1, hnum.2.1⟩ ⟨by omega, hnum.2.2.2⟩, ok_bind,
+      if_neg (by simp only [List.length_cons]; omega), sliceTo_ok (by simp only [List.length_cons]; omega),
+      ok_bind, sliceFrom_ok (by simp only [List.length_take, List.length_cons]; omega), ok_bind,
+      take_drop_hdr]
+    exact hu
+
 theorem sniRoute_std (s name : Bytes) (h : stdRoute s = some name) : sniRoute s = .ok name := by
   unfold stdRoute at h
   cases hm : firstMessage maxRecordLen s with
@@ -529,40 +563,12 @@ theorem sniRoute_std (s name : Bytes) (h : stdRoute s = some name) : sniRoute s 
   | some msg =>
     rw [hm] at h
     simp only at h
-    match s, hm with
-    | ty :: v1 :: v2 :: r1 :: r0 :: mt :: a :: b :: c :: t, hm =>
-      unfold firstMessage at hm
-      simp only [← be16_eq, ← be24_eq, maxRecordLen] at hm
-      split at hm
-      · cases hm
-      rename_i hc
-      simp only [Option.some.injEq] at hm
-      subst hm
-      simp only [not_or] at hc
-      obtain ⟨c1, c2, c3, c4, c5, c6⟩ := hc
-      have hty : ty = 0x16 := Classical.not_not.mp c1
-      have hmt : mt = 0x01 := Classical.not_not.mp c5
-      have hnum : 0 < be16 r1 r0 ∧ be16 r1 r0 ≤ 16384 ∧ be16 r1 r0 ≤ t.length + 4 ∧ be24 a b c + 4 ≤ be16 r1 r0 :=
-        ⟨by omega, by omega, by omega, by omega⟩
-      unfold stdServerName at h
-      cases hf : frame (mt :: a :: b :: c :: t.take (be24 a b c)) with
-      | none => rw [hf] at h; cases h
-      | some rh =>
-        rw [hf] at h
-        simp only at h
-        have h42 := frame_some_length _ _ hf
-        simp only [List.length_cons, List.length_take] at h42
-        have hsid := stdName_sid _ _ _ h
-        have hu := std_agree_of_sid _ _ _ rh hf h hsid
-        unfold sniRoute
-        simp only [peekLen, recHdrLen]
-        rw [if_neg (by simp only [List.length_cons]; omega), sliceTo_ok (by simp only [List.length_cons]; omega),
-          ok_bind, take_nine,
-          bufsize_nine _ _ _ _ _ _ _ _ _ hty hmt ⟨hnum.1, hnum.2.1⟩ ⟨by omega, hnum.2.2.2⟩, ok_bind,
-          if_neg (by simp only [List.length_cons]; omega), sliceTo_ok (by simp only [List.length_cons]; omega),
-          ok_bind, sliceFrom_ok (by simp only [List.length_take, List.length_cons]; omega), ok_bind,
-          take_drop_hdr]
-        exact hu
+    unfold stdServerName at h
+    cases hf : frame msg with
+    | none => rw [hf] at h; cases h
+    | some rh =>
+      rw [hf] at h
+      exact sniRoute_of_message _ s msg name rh hm hf h (stdName_sid _ _ _ h)
 
 /-! ### the strict reader accepts the encoding of every well-formed hello, with its name -/
 
